@@ -770,44 +770,14 @@ namespace bloch::runtime {
 
     static std::string runtimeSignatureLabel(const std::string& name,
                                              const std::vector<RuntimeTypeInfo>& params) {
+        // Every parameter type must get its own label: signatures key overload hiding and the
+        // vtable, so 'f(long)' and 'f(boolean)' (or two array types) must not collide.
         std::ostringstream oss;
         oss << name << "(";
         for (size_t i = 0; i < params.size(); ++i) {
             if (i)
                 oss << ",";
-            if (!params[i].className.empty())
-                oss << params[i].className;
-            else {
-                switch (params[i].kind) {
-                    case Value::Type::Int:
-                        oss << "int";
-                        break;
-                    case Value::Type::Float:
-                        oss << "float";
-                        break;
-                    case Value::Type::Bit:
-                        oss << "bit";
-                        break;
-                    case Value::Type::String:
-                        oss << "string";
-                        break;
-                    case Value::Type::Char:
-                        oss << "char";
-                        break;
-                    case Value::Type::Qubit:
-                        oss << "qubit";
-                        break;
-                    case Value::Type::Object:
-                        oss << "object";
-                        break;
-                    case Value::Type::ObjectArray:
-                        oss << "object[]";
-                        break;
-                    default:
-                        oss << "unknown";
-                        break;
-                }
-            }
+            oss << typeKey(params[i]);
         }
         oss << ")";
         return oss.str();
